@@ -37,6 +37,7 @@ UNITS = {
         "C01": ["CxVerif.Props.C16.GlueTieSimdSha", "CxVerif.Props.C16.GlueTieSimdBlake2"]}},
     "gluecurve": {"driver": None, "harness": None, "gens": None, "props": {
         p: ["CxVerif.Props.C15.GlueTieCurve"] for p in ("C12", "C13", "C14", "C15", "C17", "C19")}},
+    "refusal": {"driver": None, "harness": None, "gens": None, "props": {"C20": ["CxVerif.Props.C20.Refusal"]}},
     "hashlen": {"driver": "HashLen", "harness": "ops_hashlen", "gens": "hashlen",
                 "props": {"C01": ["CxVerif.Props.C20.HashLen"], "C20": ["CxVerif.Props.C20.HashLen"]}},
     "long": {"driver": "Long", "harness": "ops_long", "gens": "long", "props": {}},
